@@ -1,22 +1,663 @@
-//! Monitor for property C14 (see /verif/DESIGN.md §6).
+//! Monitor for property C14 - hyphenating a horizontal list (DESIGN.md §6 C14).
+//!
+//! Observed event: the list before and after `boxworks::Hyphenator::hyphenate` of the real
+//! `boxworks_hyphenate::Hyphenator`; lists are built from text by the real `TextPreprocessorImpl`
+//! with the *same* compiled lig/kern program the hyphenator is given.
+//! Oracle: `oracle.rs` (conservation (1)(2), differential (2b), positions (3) against
+//! `vmodels::liang`: Liang positions + the §894-§899 word finder).
+
+pub mod gen;
+pub mod oracle;
+pub mod unit;
 pub mod world;
+
+use boxworks::Hyphenator as _;
+use std::cell::RefCell;
+use std::sync::OnceLock;
 use vcore::*;
+use vmodels::liang::Liang;
+use world::{build_list, items_json, show_list, FontSetup, Item, N};
 
 pub struct M;
 pub static MONITOR: M = M;
+
+#[derive(Clone, Debug, PartialEq, Eq, Hash)]
+pub enum FontSpec {
+    Cmr10,
+    /// cmr10's metrics with this lig/kern program (compact syntax)
+    Synthetic(String),
+}
+
+#[derive(Clone, Debug, PartialEq, Eq, Hash)]
+pub enum PatSpec {
+    /// plain TeX's patterns and exceptions (`Hyphenator::plain_tex_en_us`)
+    Plain,
+    Custom { patterns: Vec<String>, exceptions: Vec<String> },
+}
+
+#[derive(Clone, Debug, PartialEq, Eq, Hash)]
+pub struct Spec {
+    pub font: FontSpec,
+    pub items: Vec<Item>,
+    pub pats: PatSpec,
+    pub lmin: i32,
+    pub rmin: i32,
+}
+
+impl Spec {
+    pub fn json(&self) -> Value {
+        json!({
+            "font": match &self.font { FontSpec::Cmr10 => json!("cmr10"), FontSpec::Synthetic(s) => json!({"cmr10_metrics_with_ligkern_program": s.lines().collect::<Vec<_>>()}) },
+            "text": items_json(&self.items),
+            "patterns": match &self.pats { PatSpec::Plain => json!("plain TeX"), PatSpec::Custom{patterns, exceptions} => json!({"patterns": patterns, "exceptions": exceptions}) },
+            "left_hyphen_min": self.lmin, "right_hyphen_min": self.rmin,
+        })
+    }
+}
+
+// ------------------------------------------------------------------------------------------
+// cached, immutable per-process resources
+// ------------------------------------------------------------------------------------------
+
+fn plain_model() -> Result<&'static Liang, String> {
+    static P: OnceLock<Result<Liang, String>> = OnceLock::new();
+    P.get_or_init(|| {
+        let rd = |rel: &str| {
+            let p = repo_dir().join(rel);
+            std::fs::read_to_string(&p).map_err(|e| format!("{}: {e}", p.display()))
+        };
+        let pats = rd("crates/hyphenate/src/plain_tex_patterns.txt")?;
+        let excs = rd("crates/hyphenate/src/plain_tex_exceptions.txt")?;
+        let mut m = Liang::new();
+        let bad = m.load_patterns(&pats);
+        if bad != 0 {
+            return Err(format!("{bad} malformed plain TeX patterns"));
+        }
+        for l in excs.lines().map(|l| l.trim()).filter(|l| !l.is_empty()) {
+            m.add_exception(l);
+        }
+        Ok(m)
+    })
+    .as_ref()
+    .map_err(|e| e.clone())
+}
+
+thread_local! {
+    /// cmr10 (parsed + compiled once per process; never mutated)
+    static CMR10: RefCell<Option<std::rc::Rc<FontSetup>>> = const { RefCell::new(None) };
+    /// the real hyphenator with plain TeX's patterns and cmr10's program; only the two public
+    /// minimum fields are set per case
+    static PLAIN_H: RefCell<Option<boxworks_hyphenate::Hyphenator>> = const { RefCell::new(None) };
+}
+
+fn cmr10_cached() -> Result<std::rc::Rc<FontSetup>, String> {
+    CMR10.with(|c| {
+        let mut c = c.borrow_mut();
+        if c.is_none() {
+            *c = Some(std::rc::Rc::new(world::cmr10()?));
+        }
+        Ok(c.as_ref().expect("just set").clone())
+    })
+}
+
+// ------------------------------------------------------------------------------------------
+// one case through the real code and the oracle
+// ------------------------------------------------------------------------------------------
+
+pub struct Outcome {
+    pub before: Vec<N>,
+    pub after: Vec<N>,
+    pub report: oracle::Report,
+}
+
+/// Runs the real hyphenation pass on the list built from `spec`; `None` when the case is outside
+/// the quantifier (reason counted) or the real code panicked (reported).
+pub fn run_spec(spec: &Spec, obs: &mut Obs) -> Option<Outcome> {
+    let font: std::rc::Rc<FontSetup> = match &spec.font {
+        FontSpec::Cmr10 => match cmr10_cached() {
+            Ok(f) => f,
+            Err(e) => {
+                obs.inconclusive(format!("cannot load cmr10: {e}"));
+                return None;
+            }
+        },
+        FontSpec::Synthetic(src) => match catch(|| world::synthetic(src)) {
+            Ok(Ok(Some(f))) => std::rc::Rc::new(f),
+            Ok(Ok(None)) => {
+                obs.skip("lig/kern program has an infinite loop (PLtoTF rejects it)");
+                return None;
+            }
+            Ok(Err(e)) => {
+                obs.inconclusive(format!("cannot build synthetic font: {e}"));
+                return None;
+            }
+            Err(p) => {
+                // compiling a lig/kern program is C05's subject; here it only means no font
+                obs.skip("lig/kern compiler panicked (C05's subject)");
+                let _ = p;
+                return None;
+            }
+        },
+    };
+    let list0 = match catch(|| build_list(&font, &spec.items)) {
+        Ok(l) => l,
+        Err(p) => {
+            obs.skip("text preprocessor panicked (C12's subject)");
+            let _ = p;
+            return None;
+        }
+    };
+    let before: Vec<N> = list0.iter().map(N::from_h).collect();
+
+    // the model's pattern set
+    let custom_model;
+    let liang: &Liang = match &spec.pats {
+        PatSpec::Plain => match plain_model() {
+            Ok(m) => m,
+            Err(e) => {
+                obs.inconclusive(format!("cannot load plain TeX patterns: {e}"));
+                return None;
+            }
+        },
+        PatSpec::Custom { patterns, exceptions } => {
+            let mut m = Liang::new();
+            for p in patterns {
+                match vmodels::liang::Pattern::parse(p) {
+                    Ok(p) => {
+                        if !m.add_pattern(p) {
+                            obs.inconclusive("generator produced a duplicate pattern");
+                            return None;
+                        }
+                    }
+                    Err(e) => {
+                        obs.inconclusive(format!("generator produced a malformed pattern {p}: {e:?}"));
+                        return None;
+                    }
+                }
+            }
+            for e in exceptions {
+                m.add_exception(e);
+            }
+            custom_model = m;
+            &custom_model
+        }
+    };
+
+    // the real pass
+    let mut list = list0;
+    let run = |h: &boxworks_hyphenate::Hyphenator, list: &mut Vec<boxworks::ds::Horizontal>| {
+        catch(|| h.hyphenate(list))
+    };
+    let r = match (&spec.font, &spec.pats) {
+        (FontSpec::Cmr10, PatSpec::Plain) => PLAIN_H.with(|c| {
+            let mut c = c.borrow_mut();
+            if c.is_none() {
+                match catch(|| boxworks_hyphenate::Hyphenator::plain_tex_en_us(font.program.clone())) {
+                    Ok(h) => *c = Some(h),
+                    Err(p) => return Err(p),
+                }
+            }
+            let h = c.as_mut().expect("just set");
+            h.left_hyphen_min = spec.lmin;
+            h.right_hyphen_min = spec.rmin;
+            run(h, &mut list)
+        }),
+        (_, pats) => {
+            let built = catch(|| {
+                let hy = match pats {
+                    PatSpec::Plain => hyphenate::Hyphenator::plain_tex_en_us(),
+                    PatSpec::Custom { patterns, exceptions } => {
+                        let mut hy = hyphenate::Hyphenator::default();
+                        hy.load_patterns(&patterns.join(" "));
+                        for e in exceptions {
+                            hy.insert_exception(e);
+                        }
+                        hy
+                    }
+                };
+                boxworks_hyphenate::Hyphenator {
+                    lig_kern_program: font.program.clone(),
+                    hyphenator: hy,
+                    left_hyphen_min: spec.lmin,
+                    right_hyphen_min: spec.rmin,
+                }
+            });
+            match built {
+                Ok(h) => run(&h, &mut list),
+                Err(p) => Err(p),
+            }
+        }
+    };
+    if let Err(p) = r {
+        obs.repo_panic(&p, json!({"case": spec.json(), "before": show_list(&before)}));
+        return None;
+    }
+    let after: Vec<N> = list.iter().map(N::from_h).collect();
+    if obs.verbose {
+        println!("CASE   {}", spec.json());
+        println!("BEFORE {}", show_list(&before));
+        println!("AFTER  {}", show_list(&after));
+    }
+
+    // the oracle
+    let prog = &font.program;
+    let runner = |text: &str, left: bool, ovr: Option<char>| -> Vec<N> {
+        prog.run_with_options(
+            text.chars(),
+            tfm::ligkern::RunOptions { disable_left_boundary: !left, right_boundary_override: ovr },
+        )
+        .map(|it| match it {
+            tfm::ligkern::RunItem::Char(c) => N::Char { c, font: 0 },
+            tfm::ligkern::RunItem::Kern(k) => N::Kern { w: k.0, normal: true },
+            tfm::ligkern::RunItem::Ligature(l) => N::Lig {
+                c: l.c,
+                font: 0,
+                orig: l.original.to_string(),
+                left: l.includes_left_boundary,
+                right: l.includes_right_boundary,
+            },
+        })
+        .collect()
+    };
+    let has_rule = |l: Option<char>, r: Option<char>| prog.has_replacement(l, r);
+    let instrs = &font.tfm.lig_kern_program.instructions;
+    let has_lig_rule_with_right = |c: char| {
+        instrs.iter().any(|i| {
+            char::from(i.right_char) == c
+                && matches!(i.operation, tfm::ligkern::lang::Operation::Ligature { .. })
+        })
+    };
+    let ctx = oracle::Ctx {
+        liang,
+        left_min: spec.lmin,
+        right_min: spec.rmin,
+        runner: &runner,
+        has_rule: &has_rule,
+        has_lig_rule_with_right: &has_lig_rule_with_right,
+    };
+    let report = match catch(|| oracle::check(&before, &after, &ctx)) {
+        Ok(r) => r,
+        Err(p) => {
+            if p.in_repo() {
+                // the lig/kern runner (trusted component, C05's subject) panicked inside the oracle
+                obs.skip("lig/kern runner panicked inside the oracle (C05's subject)");
+            } else {
+                obs.inconclusive(format!("oracle panicked at {}:{}: {}", p.file, p.line, p.message));
+            }
+            return None;
+        }
+    };
+    Some(Outcome { before, after, report })
+}
+
+/// Feed an outcome into the observation sink.
+fn report(spec: &Spec, out: &Outcome, obs: &mut Obs) {
+    for (name, n) in &out.report.counters {
+        obs.add(name, *n);
+    }
+    for (sig, detail) in &out.report.violations {
+        obs.violation(sig.clone(), json!({"case": spec.json(), "witness": detail}));
+    }
+    for (id, detail) in &out.report.known {
+        obs.known(id, json!({"case": spec.json(), "witness": detail}));
+    }
+    obs.count("lists_hyphenated");
+    if out.report.discs_inserted > 0 {
+        obs.nontrivial(spec);
+        obs.count("lists_with_inserted_discretionary");
+    }
+    if out.before.iter().any(|n| matches!(n, N::Lig { left: true, .. })) {
+        obs.count("lists_with_left_boundary_ligature");
+    }
+    if out.before.iter().any(|n| matches!(n, N::Lig { right: true, .. })) {
+        obs.count("lists_with_right_boundary_ligature");
+    }
+    if out.before.iter().any(|n| matches!(n, N::Lig { .. })) {
+        obs.count("lists_with_ligature");
+    }
+    if out.before.iter().any(|n| matches!(n, N::Kern { normal: true, .. })) {
+        obs.count("lists_with_implicit_kern");
+    }
+    if obs.wants_sample() && out.report.discs_inserted > 0 {
+        obs.sample(json!({"case": spec.json(), "before": show_list(&out.before), "after": show_list(&out.after)}));
+    }
+}
+
+fn run_and_report(spec: &Spec, obs: &mut Obs) -> Option<Outcome> {
+    let out = run_spec(spec, obs)?;
+    report(spec, &out, obs);
+    Some(out)
+}
+
+// ------------------------------------------------------------------------------------------
+// fixed cases
+// ------------------------------------------------------------------------------------------
+
+fn text_items(text: &str) -> Vec<Item> {
+    let mut items = vec![];
+    for (i, w) in text.split(' ').enumerate() {
+        if i > 0 {
+            items.push(Item::Space);
+        }
+        if !w.is_empty() {
+            items.push(Item::Text(w.to_string(), 0));
+        }
+    }
+    items
+}
+
+/// One fixed reproducer per listed finding (and two neighbours that must stay clean).
+fn known_cases() -> Vec<(&'static str, Spec)> {
+    let exc = |e: &[&str]| PatSpec::Custom {
+        patterns: vec![],
+        exceptions: e.iter().map(|s| s.to_string()).collect(),
+    };
+    vec![
+        (
+            oracle::K_LETTERLESS,
+            Spec { font: FontSpec::Cmr10, items: text_items("x 3.0 Contents"), pats: PatSpec::Plain, lmin: 2, rmin: 3 },
+        ),
+        (
+            oracle::K_RIGHT_FLAG,
+            Spec {
+                font: FontSpec::Synthetic("ab -> _x^_\nbc -> _z^_\nc| -> c.^|".into()),
+                items: text_items("x abc"),
+                pats: exc(&["a-bc"]),
+                lmin: 1,
+                rmin: 1,
+            },
+        ),
+        (
+            oracle::K_LEFT_RERUN,
+            Spec {
+                font: FontSpec::Synthetic("|a -> |[100]a".into()),
+                items: text_items("x abab"),
+                pats: exc(&["ab-ab"]),
+                lmin: 1,
+                rmin: 1,
+            },
+        ),
+        (
+            oracle::K_LEFT_RERUN,
+            Spec {
+                font: FontSpec::Synthetic("|a -> |[100]a".into()),
+                items: text_items("x (abab"),
+                pats: exc(&["ab-ab"]),
+                lmin: 1,
+                rmin: 1,
+            },
+        ),
+        (
+            "",
+            Spec { font: FontSpec::Cmr10, items: text_items("x 3.0a Contents"), pats: PatSpec::Plain, lmin: 2, rmin: 3 },
+        ),
+    ]
+}
+
+// ------------------------------------------------------------------------------------------
+// the repository's TeX-verified unit tests
+// ------------------------------------------------------------------------------------------
+
+fn unit_cases() -> Result<&'static Vec<unit::UnitCase>, String> {
+    static U: OnceLock<Result<Vec<unit::UnitCase>, String>> = OnceLock::new();
+    U.get_or_init(unit::load).as_ref().map_err(|e| e.clone())
+}
+
+fn unit_spec(u: &unit::UnitCase) -> Spec {
+    let unhyphenated: String = u.input.chars().filter(|c| *c != '-').collect();
+    let exceptions_src = u.hyphenation_patterns.clone().unwrap_or_else(|| u.input.clone());
+    // as the test does: plain TeX patterns + the exceptions, left min (default 1), right min 1.
+    // Modelled with Custom = no patterns unless the test relies on plain patterns (hyphenation_patterns "")
+    let pats = if exceptions_src.trim().is_empty() {
+        PatSpec::Plain
+    } else {
+        PatSpec::Custom {
+            patterns: vec![],
+            exceptions: exceptions_src.split_whitespace().map(|s| s.to_string()).collect(),
+        }
+    };
+    Spec {
+        font: FontSpec::Synthetic(u.lig_kern_program.clone()),
+        items: text_items(&format!("x {unhyphenated}")),
+        pats,
+        lmin: u.left_hyphen_min.unwrap_or(1),
+        rmin: 1,
+    }
+}
+
+/// Calibration: the oracle applied to the list real TeX produced (`want`) must raise nothing.
+fn calibrate_on_unit(u: &unit::UnitCase, obs: &mut Obs) {
+    let spec = unit_spec(u);
+    // the test's own list: "x <word>" without the paragraph tail, then list[2..] is compared
+    let font = match &spec.font {
+        FontSpec::Synthetic(s) => match world::synthetic(s) {
+            Ok(Some(f)) => f,
+            other => {
+                obs.inconclusive(format!("calibration {}: font: {:?}", u.name, other.err()));
+                return;
+            }
+        },
+        FontSpec::Cmr10 => unreachable!(),
+    };
+    let mut list = build_list(&font, &spec.items);
+    list.truncate(list.len() - 2); // no \penalty10000\parfillskip in the unit tests
+    let before: Vec<N> = list.iter().map(N::from_h).collect();
+    let want = match boxworks::lang::parse_horizontal_list(&u.want) {
+        Ok(w) => w,
+        Err(_) => {
+            obs.inconclusive(format!("calibration {}: cannot parse the want list", u.name));
+            return;
+        }
+    };
+    let mut after: Vec<N> = before[..2].to_vec();
+    after.extend(want.iter().map(N::from_h));
+    // patterns
+    let custom;
+    let liang: &Liang = match &spec.pats {
+        PatSpec::Plain => match plain_model() {
+            Ok(m) => m,
+            Err(e) => {
+                obs.inconclusive(e);
+                return;
+            }
+        },
+        PatSpec::Custom { exceptions, .. } => {
+            let mut m = Liang::new();
+            // the unit tests add the exceptions to plain TeX's patterns; the exception decides for
+            // the word of interest, and "x" has no positions
+            for e in exceptions {
+                m.add_exception(e);
+            }
+            custom = m;
+            &custom
+        }
+    };
+    let prog = &font.program;
+    let runner = |text: &str, left: bool, ovr: Option<char>| -> Vec<N> {
+        prog.run_with_options(
+            text.chars(),
+            tfm::ligkern::RunOptions { disable_left_boundary: !left, right_boundary_override: ovr },
+        )
+        .map(|it| match it {
+            tfm::ligkern::RunItem::Char(c) => N::Char { c, font: 0 },
+            tfm::ligkern::RunItem::Kern(k) => N::Kern { w: k.0, normal: true },
+            tfm::ligkern::RunItem::Ligature(l) => N::Lig {
+                c: l.c,
+                font: 0,
+                orig: l.original.to_string(),
+                left: l.includes_left_boundary,
+                right: l.includes_right_boundary,
+            },
+        })
+        .collect()
+    };
+    let has_rule = |l: Option<char>, r: Option<char>| prog.has_replacement(l, r);
+    let instrs = &font.tfm.lig_kern_program.instructions;
+    let has_lig_rule_with_right = |c: char| {
+        instrs.iter().any(|i| {
+            char::from(i.right_char) == c
+                && matches!(i.operation, tfm::ligkern::lang::Operation::Ligature { .. })
+        })
+    };
+    let ctx = oracle::Ctx {
+        liang,
+        left_min: spec.lmin,
+        right_min: spec.rmin,
+        runner: &runner,
+        has_rule: &has_rule,
+        has_lig_rule_with_right: &has_lig_rule_with_right,
+    };
+    let rep = oracle::check(&before, &after, &ctx);
+    obs.count("calibration_unit_cases");
+    if rep.discs_inserted > 0 {
+        obs.count("calibration_unit_cases_with_discretionary");
+    }
+    for (sig, d) in &rep.violations {
+        obs.inconclusive(format!(
+            "calibration: the oracle rejects the TeX-verified list of unit test {} with {sig}: {}",
+            u.name,
+            serde_json::to_string(d).unwrap_or_default()
+        ));
+    }
+    for (id, _) in &rep.known {
+        // TeX's own output must not look like one of the implementation's defects
+        obs.inconclusive(format!(
+            "calibration: the oracle attributes the TeX-verified list of unit test {} to finding {id}",
+            u.name
+        ));
+    }
+}
+
+// ------------------------------------------------------------------------------------------
+
+const ENUM_WORDS: &[&str] = &[
+    "aa", "ab", "ba", "bb", "aaa", "aab", "aba", "abb", "baa", "bab", "bba", "bbb", "aaaa", "aaab", "aaba", "aabb",
+    "abaa", "abab", "abba", "abbb", "baaa", "baab", "baba", "babb", "bbaa", "bbab", "bbba", "bbbb",
+];
 
 impl Monitor for M {
     fn id(&self) -> &'static str {
         "C14"
     }
+
     fn rule(&self) -> String {
-        "not built yet".into()
+        "A case is one paragraph: (font, text items, pattern set, left/right minimum). The text goes \
+         through the real TextPreprocessorImpl (same compiled lig/kern program as the hyphenator), gets the \
+         \\penalty10000\\parfillskip tail, and through the real Hyphenator::hyphenate; the oracle reads the \
+         list before and after. Phases: `unit` = the repository's 33 TeX-verified unit cases; `known` = \
+         fixed reproducers of the listed findings; `enum` = every lig/kern program of at most two rules \
+         from the family {|,a,b,x,-} x {a,b,-,|} x {kern, 8 ligature forms inserting x} on every word of \
+         2-4 letters over {a,b} with every set of hyphen positions; `cmr10` = random paragraphs in cmr10 \
+         (ff fi fl ffi ffl, kerns, capitals, punctuation before/after words, digits, explicit hyphens, \
+         letterless tokens, words >63 letters, a second font, foreign nodes between words) with plain \
+         TeX's patterns or dense custom patterns/exceptions; `synthetic` = random lig/kern programs over \
+         letters, ligature glyphs, the hyphen and both boundaries with exception lists that put hyphens at \
+         random positions; all with minimums mostly in 1..4 and sometimes 0, negative or >=63. A case is \
+         non-trivial when at least one discretionary was inserted; distinct = hash of the whole case."
+            .into()
     }
+
     fn assumptions(&self) -> Vec<String> {
+        vec![
+            "the lig/kern runner (tfm::ligkern::CompiledProgram::run_with_options) and TextPreprocessorImpl are trusted here: they build the input lists, and (2b) uses the runner as the translation of a string; their own correctness is C05/C12".into(),
+            "\\uchyph>0, \\hyphenchar='-', \\lccode = plain TeX (letters = ASCII alphabetic): the assumptions the implementation documents".into(),
+            "custom pattern sets use levels 0-5 only, so C13's finding about levels 7-9 cannot leak into C14".into(),
+            "for words longer than 63 letters only (1) and (2) are demanded (TeX's truncation is an implementation limit)".into(),
+            "(3) demands inserted ⊆ permitted and every permitted position taken or strictly inside the letters replaced by a taken discretionary (TeX §913-§916 passes over hyphens while the branches re-synchronise)".into(),
+            "where TeX itself reconstitutes a word differently from the original nodes (a ligature rule with the punctuation that follows the word; pinned by the unit tests right_boundary_char_override_3..6) the case is excluded from (1) by predicate and counted".into(),
+            "a font change inside a token is generated only in cmr10 (no boundary rules): with boundary kerns TeX itself drops the second font's kern".into(),
+        ]
+    }
+
+    fn phases(&self, tier: Tier) -> Vec<Phase> {
+        vec![
+            Phase::new("unit", 33).batch(4),
+            Phase::new("known", known_cases().len() as u64).batch(1),
+            Phase::new("enum", gen::enum_total())
+                .batch(64)
+                .exhaustive("every lig/kern program of <=2 rules from {|,a,b,x,-}x{a,b,-,|}x{kern,8 LIG forms inserting x}, every word of 2-4 letters over {a,b}, every set of hyphen positions, minimums (1,1)"),
+            Phase::new("cmr10", tier.pick(30_000, 1_000_000)).batch(64),
+            Phase::new("synthetic", tier.pick(60_000, 2_000_000)).batch(64),
+        ]
+    }
+
+    fn floors(&self, _tier: Tier) -> Vec<(&'static str, u64)> {
         vec![]
     }
-    fn phases(&self, _tier: Tier) -> Vec<Phase> {
-        vec![]
+
+    fn calibrate(&self, obs: &mut Obs) {
+        match unit_cases() {
+            Ok(cases) => {
+                if cases.len() < 30 {
+                    obs.inconclusive(format!("only {} unit cases found in boxworks-hyphenate", cases.len()));
+                }
+                for u in cases {
+                    calibrate_on_unit(u, obs);
+                }
+            }
+            Err(e) => obs.inconclusive(format!("cannot read the unit test table: {e}")),
+        }
     }
-    fn run_case(&self, _phase: &str, _idx: u64, _rng: &mut Rng, _obs: &mut Obs) {}
+
+    fn run_case(&self, phase: &str, idx: u64, rng: &mut Rng, obs: &mut Obs) {
+        match phase {
+            "unit" => match unit_cases() {
+                Ok(cases) => {
+                    if let Some(u) = cases.get(idx as usize) {
+                        let spec = unit_spec(u);
+                        if run_and_report(&spec, obs).is_some() {
+                            obs.count("unit_cases_run");
+                        }
+                    }
+                }
+                Err(e) => obs.inconclusive(format!("cannot read the unit test table: {e}")),
+            },
+            "known" => {
+                let (id, spec) = known_cases().swap_remove(idx as usize);
+                if let Some(out) = run_and_report(&spec, obs) {
+                    obs.count("known_reproducers_run");
+                    if id.is_empty() && (!out.report.known.is_empty() || !out.report.violations.is_empty()) {
+                        obs.violation("control-case-next-to-a-finding-fails", json!({"case": spec.json()}));
+                    }
+                }
+            }
+            "enum" => {
+                let rules = gen::enum_program(idx);
+                let prog = gen::program_text(&rules);
+                for w in ENUM_WORDS {
+                    let gaps = w.len() - 1;
+                    for mask in 0..(1u32 << gaps) {
+                        let mut exc = String::new();
+                        for (i, c) in w.chars().enumerate() {
+                            if i > 0 && mask & (1 << (i - 1)) != 0 {
+                                exc.push('-');
+                            }
+                            exc.push(c);
+                        }
+                        let spec = Spec {
+                            font: FontSpec::Synthetic(prog.clone()),
+                            items: text_items(&format!("x {w}")),
+                            pats: PatSpec::Custom { patterns: vec![], exceptions: vec![exc] },
+                            lmin: 1,
+                            rmin: 1,
+                        };
+                        if run_and_report(&spec, obs).is_none() {
+                            // infinite loop or the like: the whole program is out
+                            return;
+                        }
+                    }
+                }
+                obs.nontrivial_by_construction(1);
+            }
+            "cmr10" => {
+                let spec = gen::gen_cmr10(rng);
+                run_and_report(&spec, obs);
+            }
+            "synthetic" => {
+                let spec = gen::gen_synthetic(rng);
+                run_and_report(&spec, obs);
+            }
+            _ => obs.inconclusive(format!("unknown phase {phase}")),
+        }
+    }
 }
